@@ -20,6 +20,23 @@ use log::error;
 use crate::stream::{Tag, TagPos};
 use crate::{Error, Result};
 
+thread_local! {
+    /// Number of stream operations by this thread that moved data so far.
+    ///
+    /// Lets the single threaded graph runner, which calls all its blocks
+    /// from one thread, tell a pass over the blocks that made progress from
+    /// one that did not, independently of what the blocks returned.
+    static ACTIVITY: std::cell::Cell<u64> = const { std::cell::Cell::new(0) };
+}
+
+pub(crate) fn activity() -> u64 {
+    ACTIVITY.with(|a| a.get())
+}
+
+pub(crate) fn note_activity() {
+    ACTIVITY.with(|a| a.set(a.get().wrapping_add(1)));
+}
+
 #[derive(Debug)]
 struct Map {
     base: *mut c_uchar,
@@ -409,6 +426,7 @@ impl<T: Copy> Buffer<T> {
             // buffered tag is dropped.
             return;
         }
+        note_activity();
         let newpos = (s.rpos + n) % s.capacity();
         use std::ops::Bound::{Excluded, Included};
 
@@ -452,6 +470,7 @@ impl<T: Copy> Buffer<T> {
             }
             return;
         }
+        note_activity();
         let (lock, cv) = &*self.state;
         let mut s = lock.lock().unwrap();
         assert!(
